@@ -142,11 +142,22 @@ theorem loads_order :
   decide
 
 /-- **In-place operations on a list of configurations** (`append`, `insert`, index assignment with a map as the new item):
-    the item is built, loaded and validated before the list is touched, so a rejection — by the item schema, for a non-map
-    item, or for an index out of range — leaves the whole configuration as it was. -/
+    the item is built, loaded and validated before the list is touched (an index assignment first looks the index up: F76,
+    next theorem), so a rejection — by the item schema, for a non-map item, or for an index out of range — leaves the whole
+    configuration as it was. -/
 theorem list_item_op_rejected_unchanged (W : World) (fuel : Nat) (s : Schema) (c : Cfg) (dotted : List Char) (mode : ListMode)
     (item : Val) (n : Nat) (e : CErr) (h : (cfgListOp W fuel s c dotted mode item n).err = some e) :
     (cfgListOp W fuel s c dotted mode item n).cfg = c :=
   cfgListOp_rejected_unchanged W fuel s c dotted mode item n e h
+
+/-- **An index assignment whose index names no item is refused before the new item is looked at** (finding F76): nothing is
+    built, loaded or validated — no salt or IV is drawn (`next = n`), no object is linked to the list — and the configuration is
+    returned as it is with the built-in's `IndexError`, whatever the offered item. -/
+theorem list_item_no_slot_untouched (W : World) (fuel : Nat) (s s1 s' : Schema) (c owner : Cfg) (dotted : List Char) (path k : String)
+    (it : Bool) (req : Bool) (m : LeafMeta) (cs : List Cfg) (i : Int) (item : Val) (n : Nat)
+    (hw : walk fuel s "" c dotted = some (s1, path, owner, k)) (hf : s1.get k = some (.cfgList s' it req m))
+    (hh : (owner.get k).bind heldItems = some cs) (hi : PyList.resolveIdx cs.length i = none) :
+    cfgListOp W fuel s c dotted (.setIdx i) item n = { cfg := c, err := some (.raw "IndexError"), next := n } :=
+  cfgListOp_no_slot W fuel s s1 s' c owner dotted path k it req m cs i item n hw hf hh hi
 
 end Cinco.C06
